@@ -45,6 +45,9 @@ EXPLANATION += ' Changed / added: (R8) the norm predicate is no longer matched a
 # --- metadata added for batch 8
 EXPLANATION += ' Added: (R14, R15) the shells sit on the nuclei the file says: Molden [GTO] block numbers and Molekel `$$` separators, reader against writer (C01-R19 / R12).'
 # --- end metadata batch 8
+# --- metadata added after the round-3 refactoring twins
+EXPLANATION += " A module function the cascade calls as a bare statement (a procedure that stores the accepted values) is interpreted with the cascade in R9 instead of being stubbed as a correction helper; R2's store template defers to R9 there."
+# --- end metadata round-3 twins
 
 
 def static_len(e):
